@@ -526,3 +526,44 @@ Proof.
       change (trun st "</body></html>") with r end. cbv beta iota.
     reflexivity.
 Qed.
+
+(* ================= the monitors evaluate the theorems' conclusions ================= *)
+(* the escapers' outputs always satisfy the monitor applied to html/template's outputs *)
+Theorem escapers_meet_spec s :
+  escase_spec {| es_s := s; es_attr := attr_escape s; es_url := url_attr s; es_text := html_escape s |} = true.
+Proof.
+  unfold escase_spec, has_bad_attr_char. cbn [es_s es_attr es_url es_text].
+  destruct (attr_escape_inert s) as (A1 & A2 & A3 & A4 & A5 & A6).
+  destruct (url_attr_inert s) as (U1 & U2 & U3 & U4 & U5 & U6 & _).
+  rewrite A1, A2, A3, A4, A5, A6, U1, U2, U3, U4, U5, U6, seqb_refl. cbn [orb negb andb].
+  change (html_escape s) with (attr_escape s). rewrite A2, A6, seqb_refl. cbn [negb andb].
+  unfold url_filter. destruct (is_safe_url s).
+  - now rewrite seqb_refl.
+  - change (url_normalize FAILSAFE) with FAILSAFE. rewrite seqb_refl. now rewrite orb_true_r.
+Qed.
+
+(* soundness: a text accepted by the monitor is inert and decodes to the input *)
+Theorem escase_spec_sound c :
+  escase_spec c = true ->
+  contains_chr 34 (es_attr c) = false /\ contains_chr 60 (es_attr c) = false /\ contains_chr 62 (es_attr c) = false /\
+  contains_chr 39 (es_attr c) = false /\ contains_chr 0 (es_attr c) = false /\
+  decode_charrefs (es_attr c) = nul_to_fffd (es_s c).
+Proof.
+  unfold escase_spec, has_bad_attr_char. intros H.
+  repeat (apply andb_true_iff in H as [H ?]).
+  apply negb_true_iff in H. repeat (apply orb_false_iff in H as [H ?]).
+  match goal with X : seqb (decode_charrefs (es_attr c)) _ = true |- _ => apply seqb_eq in X end.
+  repeat split; assumption.
+Qed.
+
+(* the model's rendering always satisfies the form monitor (tokenizer part) *)
+Theorem render_meets_spec k d :
+  opt_tokens_eqb (tokenize_form (render_form k d)) (intended_of k d) = true.
+Proof.
+  rewrite form_structure_fixed. cbn [opt_tokens_eqb].
+  assert (forall a, attrs_eqb a a = true) as Ha.
+  { induction a as [|[x y] a IH]; [reflexivity|]. cbn. now rewrite !seqb_refl, IH. }
+  assert (forall t, token_eqb t t = true) as Ht.
+  { intros [n a sc|n|t|t]; cbn; rewrite ?seqb_refl, ?Ha, ?Bool.eqb_reflx; reflexivity. }
+  induction (intended_of k d) as [|t l IH]; [reflexivity|]. cbn. now rewrite Ht, IH.
+Qed.
